@@ -30,8 +30,14 @@ def gen_cases(rng, n, n_empty):
         # real evidence, but the structure stage's answer is extended by competing structures (one default copy more / less) at a
         # small score offset and the gap is wide: candidates of SEVERAL structures with DIFFERENT scores reach both filters
         cases.append({"seed": rng.randrange(1 << 30), "stream": "injected-structures", "gap": rng.choice([0.5, 1.0, 2.0]), "mms": rng.choice([1, 2, 3]),
-                      "force_empty": None, "inject": [[rng.choice([1, -1]), rng.choice([0.05, 0.2, 0.35, 0.6])]
-                                                      for _ in range(rng.choice([1, 2]))]})
+                      "force_empty": None, "inject": [[rng.choice([1, -1]), rng.choice([0.05, 0.2, 0.35, 0.6]), rng.random() < 0.4]
+                                                      for _ in range(rng.choice([1, 2]))], "noisy": k % 2 == 1})
+    for k in range(n // 2):
+        # the candidates of a real run (several structures, majors, minors) replayed with SYNTHETIC stage scores: every relation between
+        # structure, major and minor scores occurs (ties, reorderings by the rescaling, candidates exactly at the gap)
+        cases.append({"seed": rng.randrange(1 << 30), "stream": "synthetic-scores", "gap": rng.choice([0.0, 0.1, 0.3, 0.5, 1.0]),
+                      "mms": rng.choice([1, 2, 3]), "force_empty": None,
+                      "inject": [[1, 0.2, False], [-1, 0.3, False]] if k % 2 else [[1, 0.1, False]], "noisy": k % 3 == 0})
     for k in range(n_empty):
         cases.append({"seed": rng.randrange(1 << 30), "stream": "forced-empty", "gap": rng.choice([0.0, 0.1]), "mms": 1,
                       "force_empty": ["cn", "major", "minor"][k % 3]})
@@ -72,8 +78,8 @@ def build_sample(case, d):
     import gendb, simreads
     rng = random.Random(case["seed"])
     amb = case["stream"] == "ambiguous"
-    if case["stream"] == "injected-structures":
-        case = dict(case, stream="clean")
+    if case["stream"] in ("injected-structures", "synthetic-scores"):
+        case = dict(case, stream="noisy" if case.get("noisy") else "clean")
     yml, desc = gendb.write_db(d, rng, length=rng.randint(300, 900), n_alleles=rng.randint(4, 8),
                                deletion=(True if amb else rng.random() < 0.8), simulation_friendly=True, union=amb)
     build = rng.choice(["hg19", "hg38"])
@@ -140,6 +146,22 @@ def chain_checks(gene, sol):
 
 
 def run_case(case):
+    """one case; a synthetic-scores case is expanded inside the worker into several score assignments over ONE harvest"""
+    if case["stream"] == "synthetic-scores" and "score_seed" not in case:
+        outs = []
+        _HARVEST.clear()
+        for j in range(case.get("repeats", 6)):
+            c2 = dict(case, score_seed=j, gap=[0.0, 0.1, 0.3, 0.5, 1.0, 0.3][j % 6], mms=[1, 2, 3][j % 3])
+            outs.append((c2, _run_case(c2)))
+        _HARVEST.clear()
+        return {"multi": outs}
+    return _run_case(case)
+
+
+_HARVEST = {}
+
+
+def _run_case(case):
     common.quiet_aldy()
     from aldy.genotype import genotype
     from aldy.common import AldyException
@@ -150,7 +172,24 @@ def run_case(case):
         yml, desc, build, prof, bam, alleles, info, L, step = build_sample(case, d)
         out = {"planted": alleles, "build": build, "strand": desc["builds"][build]["strand"], "pseudogene": bool(desc["pseudogene"]),
                "L": L, "depth": L // step, "error": None}
-        with e2e.StageRecorder(case["force_empty"], inject=case.get("inject")) as rec:
+        stubs = None
+        if case["stream"] == "synthetic-scores":
+            # pass 1: a real run (with competing structures injected and a wide gap) whose only purpose is to harvest candidate objects
+            rec1 = _HARVEST.get("rec")
+            if rec1 is None:
+                with e2e.StageRecorder(None, inject=case.get("inject")) as rec1:
+                    try:
+                        genotype(yml, bam, output_file=None, solver="any", gap=1.0, max_minor_solutions=2, **simreads.genotype_kwargs(desc, build, prof))
+                    except AldyException:
+                        pass
+                _HARVEST["rec"] = rec1
+            if rec1.cn and rec1.solve_calls:
+                stubs = e2e.ScoreStubs(rec1, random.Random(case["seed"] + 7 + 1000 * case.get("score_seed", 0)))
+            else:
+                out["early"] = True
+                return out
+        import contextlib
+        with (stubs or contextlib.nullcontext()), e2e.StageRecorder(case["force_empty"], inject=None if stubs else case.get("inject")) as rec:
             try:
                 res = genotype(yml, bam, output_file=None, solver="any", gap=case["gap"], max_minor_solutions=case["mms"],
                                **simreads.genotype_kwargs(desc, build, prof))
@@ -387,11 +426,17 @@ def correspond(chk, case, r, m, K):
 
 
 # ----------------------------------------------------------------------------------------------------------------------
-def evaluate(chk, cases, jobs=12, timeout=75):
+def evaluate(chk, cases, jobs=12, timeout=120):
     K = e2e.consts_here()
     results = e2e.run_pool(run_case, cases, jobs=jobs, timeout=timeout)
     usable = []
+    flat = []
     for case, r in zip(cases, results):
+        if isinstance(r, dict) and "multi" in r:
+            flat += list(r["multi"])
+        else:
+            flat.append((case, r))
+    for case, r in flat:
         if r.get("timeout"):
             chk.count(case["stream"], "timeout")
             continue
